@@ -168,6 +168,23 @@ def run_data(case):
     n += 1
     if z1 == z2:
         viol.append({"sig": {"kind": "data-collision", "variant": "zeros-int64-vs-float64"}, "msg": "zeros(4, int64) and zeros(4, float64) get one key"})
+    # large data (several MiB): a change anywhere must reach the key, not only within a prefix or a sample
+    big = np.arange(3 * 2 ** 18, dtype=np.float64)
+    kbig = key(pt.make_data_wrapper(big) + 1)
+    for where_ in (0, big.size // 2, 2 ** 17 + 1, big.size - 1):
+        ch = big.copy()
+        ch[where_] += 1.0
+        n += 1
+        if key(pt.make_data_wrapper(ch) + 1) == kbig:
+            viol.append({"sig": {"kind": "data-collision", "variant": "large-array-one-element-changed"},
+                         "msg": f"float64 array of {big.size} elements: changing element {where_} does not change the key"})
+    bigi = np.arange(2 ** 20 + 7, dtype=np.int32)
+    chi = bigi.copy()
+    chi[-1] += 1
+    n += 1
+    if key(pt.make_data_wrapper(chi)) == key(pt.make_data_wrapper(bigi)):
+        viol.append({"sig": {"kind": "data-collision", "variant": "large-array-one-element-changed"},
+                     "msg": f"int32 array of {bigi.size} elements: changing the last element does not change the key"})
     sq = np.arange(9.0).reshape(3, 3)
     n += 1
     if key(pt.make_data_wrapper(sq)) == key(pt.make_data_wrapper(sq.T)):
@@ -187,6 +204,11 @@ def run_data(case):
         "reshape-order": (x.reshape(4, 3, order="C"), x.reshape(4, 3, order="F")),
         "roll-shift": (pt.roll(x, 1, 0), pt.roll(x, 2, 0)),
         "scalar-constant": (x + 1.0, x + 2.0),
+        "numpy-scalar-same-bytes-other-dtype-32": (x + np.float32(1), x + np.int32(1065353216)),
+        "numpy-scalar-same-bytes-other-dtype-64": (x + np.float64(1), x + np.int64(4607182418800017408)),
+        "numpy-scalar-vs-python-scalar": (x * np.float32(2), x * 2.0),
+        "python-int-vs-float-constant": (pt.make_placeholder("xi", (3,), np.int32) + 1, pt.make_placeholder("xi", (3,), np.int32) + 1.0),
+        "full-fill-value-dtype": (pt.full((3,), np.float32(1)), pt.full((3,), np.int32(1065353216), dtype=np.float32)),
         "send-tag": (pt.staple_distributed_send(x, 1, 5, x), pt.staple_distributed_send(x, 1, 6, x)),
         "output-name": (pt.make_dict_of_named_arrays({"a": x + 1}), pt.make_dict_of_named_arrays({"b": x + 1})),
         "einsum-spec": (pt.einsum("ij,ij->ij", x, x), pt.einsum("ij,ij->i", x, x)),
